@@ -118,7 +118,8 @@ def run_shard(spec):
         h, login = rand_header(r)
         # the body follows after an empty line, or begins with a comment right under the header
         glue = ["\n", "\n", "\n", "/* about this file */\n\n", "/*\n** about\n** this file\n*/\n\n", "// about this file\n\n",
-                "/* a */\n/* b */\n// c\n\n"][k % 7]
+                "/* a */\n/* b */\n// c\n\n", "".join("/* licence line %d */\n" % i for i in range(70)) + "\n",
+                "/*\n" + "".join("** licence line %d\n" % i for i in range(120)) + "*/\n\n"][k % 9]
         sh.tally("body_starts", repr(glue.split("\n")[0][:2]))
         src = "\n".join(h) + "\n" + glue + body
         pk = PREDECESSORS[k % len(PREDECESSORS)]
@@ -138,6 +139,10 @@ def run_shard(spec):
                 pk = r.choice(PREDECESSORS)
                 run_predecessor(pk, r)
                 sh.tally("predecessors", str(pk))
+                if k % 12 == 0 and mname in ("absent", "line_3_removed", "line_comments", "by_blank"):
+                    # ... also when the rest of the file is full of characters no token starts with
+                    src2 = src2 + "\n".join("$" * 90 for _ in range(60)) + "\n"
+                    sh.tally("cases", "mutant_with_5400_lexical_diagnostics")
                 n, run = count_invalid(name, src2)
                 sh.case(src2)
                 sh.count("c13.mutant_rejected_exactly_once")
